@@ -176,6 +176,11 @@ def run_case(case):
                            "history": [("c", 40), ("s", 100), ("s", 0), ("c", 7), ("s", 300), ("c", 1)]}
                     scn["close_alerts"] = ("c", "s") if code % 2 else ("s", "c")
                     tls_one(scn, {"layer": "A", "class": c01.class_name(v, code, etm, hs), "suite": f"{code:#06x}"})
+                    if (v, code, etm, hs) in reps and v != tls.TLS13:
+                        # an encrypted handshake record that is no Finished in mid-stream (HelloRequest, which the client ignores)
+                        h2 = [("c", 40), ("s", 100), ("s", "hello_request"), ("s", 60), ("c", 7), ("s", "hello_request"), ("c", 9), ("s", 5)]
+                        tls_one(dict(scn, history=h2), {"layer": "A", "class": c01.class_name(v, code, etm, hs), "suite": f"{code:#06x}",
+                                                        "hello_request": True})
                     if (v, code, etm, hs) in reps:
                         for d in ("c", "s"):
                             tls_one(dict(scn, close_alerts=None, trailing_other=(d,)),
